@@ -262,6 +262,12 @@ def run(tier: str, rng: random.Random, proof_ok: bool) -> dict:
                  (("DictAnyV", [P(LONG[0], SHORT3), P(LONG[1], SHORT3)], None, None, True), ("VDict", [P(LONG[2], LONG[2])])),
                  (("UnionV", [SHORT3, ("SetV", SHORT3, [], [], None), ("NoneV", None)]), ("VSet", LONG[1:4]))]:
         cases.append(std_case(v, x, "sync", tag="builtin"))
+    # long values outside ASCII (messages show a shortened repr of the value: shortened by characters, not bytes)
+    for ch in ("é", "日", "\U0001f600", "a\u0301"):
+        for ln in (29, 30, 31, 59, 60, 61, 100):
+            xs_ = G.S("x" + ch * ln)
+            cases.append(std_case(("Scalar", ("KInt",), None, [], [], []), xs_, "sync", tag="builtin"))
+            cases.append(std_case(("SetV", ("Scalar", ("KInt",), None, [], [], []), [], [], None), ("VSet", [xs_, G.S(ch * ln)]), "sync", tag="builtin"))
     # failures far below the root (renderers that indent or abbreviate by depth must cope with any depth)
     INTV = ("Scalar", ("KInt",), None, [], [("PMin", G.I(0), False)], [])
     deep_inner = [(("SetV", INTV, [], [], None), ("VSet", [G.S("x"), G.I(-1)])),
@@ -287,7 +293,8 @@ def run(tier: str, rng: random.Random, proof_ok: bool) -> dict:
         cases.append(std_case(v, ("VDict", [P(keys[0], G.S("bad")), P(keys[1], G.I(1))]), "sync", tag="builtin"))
         cases.append(std_case(("MapV", ("AlwaysValid",), KI, [], [], None), ("VDict", [P(k, G.S("bad")) for k in keys]), "sync", tag="builtin"))
     # choice sets whose members cannot be ordered against each other (the message lists the members)
-    for kind, members, bad in ((("KInt",), [G.I(1), G.S("a")], G.I(5)), (("KStr",), [G.S("a"), G.NONE], G.S("zz")),
+    for kind, members, bad in ((("KDecimal",), [G.DNAN, G.D1], G.D15), (("KFloat",), [G.NAN, G.F1], G.F0),
+                               (("KInt",), [G.I(1), G.S("a")], G.I(5)), (("KStr",), [G.S("a"), G.NONE], G.S("zz")),
                                (("KStr",), [G.S("a"), G.B(b"a"), G.I(0)], G.S("zz")), (("KInt",), [G.I(2), G.NONE, G.S("")], G.I(5))):
         cv = ("Scalar", kind, None, [], [("PChoices", members)], [])
         cases.append(std_case(cv, bad, "sync", tag="builtin"))
